@@ -175,12 +175,20 @@ def run_both(cases, tag, project=None):
     ci, _ = split_cases(out_i)
     cm, _ = split_cases(out_m)
     if project:
-        ci = {k: project(v) for k, v in ci.items()}
-        cm = {k: project(v) for k, v in cm.items()}
+        ci = {k: project(k, v) for k, v in ci.items()}
+        cm = {k: project(k, v) for k, v in cm.items()}
     return ci, cm, errs
 
 
 TAG = 'x'
+
+
+def get_project(P):
+    if hasattr(P, 'project_case'):
+        return P.project_case
+    if hasattr(P, 'project'):
+        return lambda cid, lines: P.project(lines)
+    return None
 
 
 def differs(case, tag=None, project=None):
@@ -316,7 +324,7 @@ class Check:
         cases, info = P.generate(self.rng, self.tier)
         corpus = self.load_corpus()
         cases = corpus + cases
-        project = getattr(P, 'project', None)
+        project = get_project(P)
         mismatches = []
         ci = cm = {}
         errs = []
